@@ -949,9 +949,41 @@ def cmd_replay(prop, path, quiet=False):
     return 0 if r.returncode == 0 else 1
 
 
+def prebuild_flavour(flavour, names):
+    """Compiles every translation unit the harnesses of one flavour need in one parallel batch (the objects are
+    cached by content, build_harness then only links)."""
+    os.makedirs(os.path.join(BUILD, flavour), exist_ok=True)
+    lock = open(os.path.join(BUILD, flavour, '.lock'), 'w')
+    fcntl.flock(lock, fcntl.LOCK_EX)
+    try:
+        b = Builder(flavour)
+        jobs = {}
+        for n in names:
+            spec = HARNESSES[n]
+            hs = list(spec['srcs']) + (['shim.cpp', 'simworld.cpp', 'plugins.cpp', 'core.cpp'] if spec.get('common', True) else [])
+            hs += spec.get('extra', [])
+            for s_ in hs:
+                jobs[os.path.join(HARNESS, s_)] = b.oomd_hdr + b.harness_hdr
+        b.oomd_objs(with_main=any(HARNESSES[n].get('with_main', False) for n in names))
+        b.compile_many(sorted(jobs.items()))
+    finally:
+        fcntl.flock(lock, fcntl.LOCK_UN)
+        lock.close()
+
+
 def cmd_setup():
     names = sorted(HARNESSES.keys())
     ok = True
+    byfl = {}
+    for n in names:
+        byfl.setdefault(HARNESSES[n]['flavour'], []).append(n)
+    for fl, ns in sorted(byfl.items()):
+        t0 = time.time()
+        try:
+            prebuild_flavour(fl, ns)
+            log('compiled flavour %s in %.1fs' % (fl, time.time() - t0))
+        except BuildError as e:
+            log('BUILD ERROR (flavour %s)\n%s' % (fl, e))
     for n in names:
         t0 = time.time()
         try:
